@@ -152,11 +152,20 @@ def one_case(ctx, cid, rng, idx):
         dts["count"] = np.float64
     make_cooler(uri, bt, P, dtypes=dts or None)
     clr = cooler.Cooler(uri)
+    hfile = None
+    on_handle = False
+    if group != "/" and idx % 5 != 3 and idx % 2 == 0:
+        on_handle = True
+        import h5py
+        hfile = h5py.File(path, "r")
+        clr = cooler.Cooler(hfile[group])           # the object wraps an open Group handle instead of a path
     cs = work_cap(len(P), opts, rng)
     desc = {"bt": [[c_, len(e) - 1] for c_, e in bt], "pattern": pat, "float_counts": isfloat, "mode": mode,
             "options": {k: v for k, v in opts.items()}, "chunksize": cs, "nnz": len(P),
             "pixels": sorted((a, b, v) for (a, b), v in P.items())[:200]}
     with ctx.case(cid, desc) as c:
+        if on_handle:
+            c.feature("cooler-object:on-open-group-handle")
         c.feature(f"mode:{mode}", "location:root" if group == "/" else "location:nested-group",
                   f"stored-bin-id-dtype:{np.dtype(idt).name if idt else 'int64'}")
         if isfloat:
@@ -183,6 +192,9 @@ def one_case(ctx, cid, rng, idx):
         if any(v == 0 for v in P.values()):
             c.feature("pixels:stored-zero-counts")
         bias, stats = cooler.balance_cooler(clr, chunksize=cs, **kw)
+        if hfile is not None:
+            hfile.close()
+            hfile = None
         if stored_twice:
             with h5py.File(path, "r") as f:
                 stored = f[group]["bins/weight"][:]
@@ -320,4 +332,6 @@ def one_case(ctx, cid, rng, idx):
             c.nontrivial(repr(desc["bt"]), repr(sorted(P.items())), mode, repr({k: (v.tolist() if isinstance(v, np.ndarray) else v) for k, v in opts.items()}))
         ctx.sample({"mode": mode, "nbins": n, "nnz": len(P), "options": {k: (("array", len(v)) if isinstance(v, (list, np.ndarray)) else v) for k, v in opts.items()},
                     "converged": conv, "retained_bins": retained, "flatness_ratio": max(ratios) if ratios else None}, limit=6)
+    if hfile is not None:
+        hfile.close()
     os.remove(path)
